@@ -1612,6 +1612,8 @@ func (w *envelopingWriter) handleTrailer() error {
 		uncompressed := w.rw.op.bufferPool.Get()
 		defer w.rw.op.bufferPool.Put(uncompressed)
 		if err := w.rw.op.server.respCompression.decompressLimited(uncompressed, data, int64(w.rw.op.methodConf.maxMsgBufferBytes)); err != nil {
+			w.rw.reportError(err)
+			w.err = err
 			return err
 		}
 		data = uncompressed
@@ -1619,6 +1621,7 @@ func (w *envelopingWriter) handleTrailer() error {
 	end, err := w.rw.op.serverEnveloper.decodeEndFromMessage(w.rw.op, data)
 	if err != nil {
 		w.rw.reportError(err)
+		w.err = err
 		return err
 	}
 	end.wasCompressed = w.trailerIsCompressed
